@@ -107,11 +107,13 @@ def model(cfg, ctx, group, args):
                 cls.add('%s: unrepresentable (%s)' % (op, 'panics' if dbg else 'wraps'))
         exp['op_div'] = exp.pop('div')
         exp['op_rem'] = exp.pop('rem')
+        for op in ('add', 'sub', 'mul', 'div', 'rem'):
+            exp['op_%s_rr' % op] = exp['op_%s_assign' % op] = exp['op_' + op]
         if bb == 0:
             cls.add('zero divisor')
         if cfg.signed:
             v, o = exp['overflowing_neg']
-            exp['op_neg'] = (PANIC if dbg else v) if o else v
+            exp['op_neg'] = exp['op_neg_r'] = (PANIC if dbg else v) if o else v
             v, o = exp['overflowing_abs']
             exp['abs'] = (PANIC if dbg else v) if o else v
             if o:
